@@ -2,6 +2,7 @@
 from __future__ import annotations
 
 import ast
+import re
 
 from ..dtable import table as dtable, Unsupported
 from ..loader import norm, own_nodes, AnalysisError
@@ -473,7 +474,7 @@ def _resolve_ifexp(e, val, defs, free):
     return [e]
 
 
-def _key_width(e, keynames):
+def _key_width_old(e, keynames):
     """'N' = as many cells as the key has fields; '1'; '0' -- how many leading key cells the expression contributes"""
     if isinstance(e, ast.Call) and norm(e.func) in ('list', 'tuple') and e.args and norm(e.args[0]) in keynames:
         return 'N'
@@ -487,99 +488,106 @@ def _key_width(e, keynames):
     return '?'
 
 
+def _key_width(e, keynames, val=None, defs=None):
+    """'N' / '1' / '0' key cells at the front of a (resolved) header or row expression, '?' when not recognised"""
+    from ..ladder import seq_eval
+    segs = seq_eval(e, {}, val, defs)
+    # leading segments that stand for key cells
+    n_lit = 0
+    for src, mp in segs:
+        if src in keynames and mp is None:
+            return 'N' if n_lit == 0 else '?'          # list(key) / tuple(k): as many cells as key fields
+        if src.startswith('lit:'):
+            lit = src[4:]
+            if lit in keynames or lit == "'key'":
+                n_lit += 1
+                continue
+            break
+        # an opaque segment (aggregated values, the field name, ...) ends the key part -- unless it hides the key
+        if any(re.search(r'\b%s\b' % re.escape(k), src) for k in keynames):
+            return '?'
+        break
+    return str(n_lit) if n_lit <= 1 else '?'
+
+
 def r911(ctx, rep):
-    """The key cells of an output row line up with the key fields of the
-    header: both are chosen by the same tests on the key *specification*
-    (compound / callable / None / single field), never by a test on a group's
-    key value, and under every shape of the specification they have the same
-    width (N cells for a compound key, one cell, or none)."""
-    import itertools
+    """The key cells of an output row line up with the key fields of the header: under every shape of the key
+    specification (compound / callable / None / single field) the first yield (header) and the later yields (rows)
+    carry the same number of key cells -- N for a compound key, one, or none -- and no test on a group's key *value*
+    takes part in shaping a row.  Decided on the effect sequences of the iterator under each valuation of its tests on
+    `key`, so the ladders may be separate, fused, inverted or hoisted."""
+    from ..ladder import paths, resolve, atoms_in, test_defs
     n = 0
-    for fq, (hpick, rpick) in sorted(KEY_SHAPE_FUNCS.items()):
+    for fq in sorted(KEY_SHAPE_FUNCS):
         fn = ctx.project.need_fn(fq)
         body = fn.node.body
-        # the group variable(s): first target of `for k, grp in rowgroupby(...)`
         gvars = set()
         for x in own_nodes(fn.node):
             if isinstance(x, ast.For) and isinstance(x.target, ast.Tuple) and x.target.elts and \
-                    isinstance(x.target.elts[0], ast.Name) and 'rowgroupby' in norm(x.iter) or \
-                    (isinstance(x, ast.For) and isinstance(x.target, ast.Tuple) and isinstance(x.iter, ast.Name)
-                     and x.iter.id == 'grouped'):
+                    isinstance(x.target.elts[0], ast.Name) and ('rowgroupby' in norm(x.iter) or
+                                                                (isinstance(x.iter, ast.Name) and x.iter.id == 'grouped')):
                 gvars.add(x.target.elts[0].id)
         if not gvars:
             raise AnalysisError('anchor vanished: group loop of %s' % fq)
-        hdr_yield = set()
-        for x in own_nodes(fn.node):
-            if isinstance(x, ast.Yield) and x.value is not None and hpick in norm(x.value):
-                hdr_yield.add(id(x))
-        # atoms of the header ladder
+        keynames = {'key'} | gvars
+        defs = test_defs(fn.node, {'key', 'isinstance', 'callable', 'list', 'tuple', 'string_types', 'len'})
         atoms = []
         for x in own_nodes(fn.node):
-            if isinstance(x, ast.If) and _contains_pick([x], hpick, set()):
-                for a in _conj(x.test):
-                    if norm(a) not in atoms:
-                        atoms.append(norm(a))
+            if isinstance(x, (ast.If, ast.IfExp)):
+                for a0 in atoms_in(x.test, defs):
+                    t0 = ast.parse(a0, mode='eval').body
+                    names = {y.id for y in ast.walk(t0) if isinstance(y, ast.Name)}
+                    if 'key' in names and not (names & gvars) and 'len(key)' not in a0 and a0 not in atoms:
+                        atoms.append(a0)
         if not atoms:
-            raise AnalysisError('anchor vanished: header ladder of %s' % fq)
-        keynames = {'key'} | gvars
-        counts = {}
-        for x in own_nodes(fn.node):
-            if isinstance(x, ast.Assign) and len(x.targets) == 1 and isinstance(x.targets[0], ast.Name):
-                counts.setdefault(x.targets[0].id, []).append(x.value)
-        defs = {k2: v[0] for k2, v in counts.items() if len(v) == 1 and k2 not in keynames and
-                isinstance(v[0], (ast.Call, ast.Compare, ast.BoolOp, ast.UnaryOp)) and
-                {y.id for y in ast.walk(v[0]) if isinstance(y, ast.Name)} <= {'key', 'isinstance', 'callable', 'list', 'tuple',
-                                                                              'string_types', 'len'}}
-        # the atoms of the header ladder in positive form (`key is not None` counts as `key is None`)
-        patoms = []
-        for a0 in atoms:
-            t0 = ast.parse(a0, mode='eval').body
-            if isinstance(t0, ast.Name) and t0.id in defs:
-                a0 = norm(defs[t0.id])
-                t0 = defs[t0.id]
-            if isinstance(t0, ast.Compare) and len(t0.ops) == 1 and isinstance(t0.ops[0], ast.IsNot):
-                a0 = norm(ast.Compare(left=t0.left, ops=[ast.Is()], comparators=t0.comparators))
-            if isinstance(t0, ast.UnaryOp) and isinstance(t0.op, ast.Not):
-                a0 = norm(t0.operand)
-            if a0 not in patoms:
-                patoms.append(a0)
-        atoms = patoms
-        for combo in [()] + [(a,) for a in atoms]:
-            val = {a: (a in combo) for a in atoms}
+            raise AnalysisError('anchor vanished: tests on the key specification in %s' % fq)
+        for combo in [()] + [(a0,) for a0 in atoms]:
+            val = {a0: (a0 in combo) for a0 in atoms}
             label = combo[0] if combo else 'otherwise (single field)'
-            free_h, free_r = [], []
-            hs = _shapes(body, val, hpick, set(), free_h, defs)
-            rs = _shapes(body, val, rpick, hdr_yield, free_r, defs)
-            n += 1
-            bad_tests = [a for a, names in free_r if names & gvars]
-            spec_tests = [a for a, names in free_r if 'key' in names and not (names & gvars)]
             construct = 'key cells when %s' % label
-            if bad_tests:
+            n += 1
+            hw, rw, value_tests, shapes = set(), set(), [], []
+            for pth in paths(body, val, defs, enter_loops=True):
+                if pth.kind == 'raise':
+                    continue
+                # a path that re-binds `key` (a one-element compound key becomes its only field) continues under
+                # another shape of the specification, which has its own valuation
+                if any(isinstance(st, ast.Assign) and any(isinstance(t, ast.Name) and t.id == 'key' for t in st.targets)
+                       for st in pth.effects):
+                    continue
+                for t, outcome in pth.free:
+                    names = {y.id for y in ast.walk(t) if isinstance(y, ast.Name)}
+                    if names & gvars:
+                        value_tests.append(t)
+                seen_hdr = False
+                for i, st in enumerate(pth.effects):
+                    if isinstance(st, (ast.For, ast.While, ast.With)):
+                        continue
+                    for y in [x for x in ast.walk(st) if isinstance(x, ast.Yield) and x.value is not None]:
+                        e = resolve(y.value, pth.effects[:i])
+                        w = _key_width(e, keynames, val, defs)
+                        shapes.append(norm(e)[:40])
+                        if not seen_hdr:
+                            seen_hdr = True
+                            hw.add(w)
+                        else:
+                            rw.add(w)
+            if value_tests:
                 rep.violated('R9.11', fn, construct,
                              'the shape of the output row is chosen by `%s`, a test on the key *value* of the group, while the '
                              'header is chosen by the key specification: a single key whose values happen to be tuples (or a '
                              'compound key whose values are not) gets rows that do not line up with the header'
-                             % norm(bad_tests[0]), bad_tests[0])
-                continue
-            if spec_tests:
-                rep.violated('R9.11', fn, construct,
-                             'the output row is shaped by `%s`, a test on the key specification that the header ladder does '
-                             'not make' % norm(spec_tests[0]), spec_tests[0])
-                continue
-            hw = {_key_width(e, keynames) for e in hs}
-            rw = {_key_width(e, keynames) for e in rs}
-            if not hs or not rs:
-                rep.undecided('R9.11', fn, construct, 'no header / row shape found', fn.node)
+                             % norm(value_tests[0]), value_tests[0])
+            elif not hw or not rw:
+                rep.undecided('R9.11', fn, construct, 'no header / row yield found on the paths', fn.node)
             elif '?' in hw | rw:
-                rep.undecided('R9.11', fn, construct, 'shape not recognised: header %s, row %s'
-                              % ([norm(e) for e in hs], [norm(e) for e in rs]), fn.node)
+                rep.undecided('R9.11', fn, construct, 'shape not recognised: %s' % shapes[:4], fn.node)
             elif len(hw) == 1 and hw == rw:
-                rep.held('R9.11', fn, construct, 'header %s / row %s: %s key cell(s)' % (
-                    norm(hs[0])[:30], norm(rs[0])[:30], sorted(hw)[0]), fn.node)
+                rep.held('R9.11', fn, construct, '%s key cell(s) in header and rows' % sorted(hw)[0], fn.node)
             else:
                 rep.violated('R9.11', fn, construct,
-                             'the header has %s key field(s) (%s) but the row gets %s key cell(s) (%s)'
-                             % ('/'.join(sorted(hw)), norm(hs[0]), '/'.join(sorted(rw)), norm(rs[0])), rs[0])
+                             'the header has %s key field(s) but the rows get %s key cell(s) (%s)'
+                             % ('/'.join(sorted(hw)), '/'.join(sorted(rw)), ' ; '.join(shapes[:4])), fn.node)
     ctx.floor('key_shape_valuations', n, 9)
 
 
